@@ -184,3 +184,28 @@ def u_minimize(ip):
 from contracts.c08 import list_chain_long_unit  # noqa: E402
 
 list_chain_long_unit("C19.chain_keeps_every_appended_chunk", "C19")
+
+
+@unit("C19.one_record_per_kernel", "C19", ["liesel/goose/kernel_sequence.py::KernelSequence.__init__", "liesel/goose/kernel_sequence.py::KernelSequence.transition"],
+      assumptions=["two and three kernels; identifiers distinct / two equal / one empty"])
+def u_one_record_per_kernel(ip):
+    """'per kernel': transition infos (and with them error codes) are recorded under the kernel's identifier, so the kernel sequence accepts only kernels with
+    non-empty, pairwise DIFFERENT identifiers (anything else is rejected at construction - otherwise one kernel's codes would overwrite another's), and one
+    transition of an accepted sequence returns exactly one info per kernel, under that kernel's identifier."""
+    c = ip.ctx
+    from contracts.c07 import KS, ghost_kernel, sym_epoch_state
+    K = ip.repo(f"{KS}::KernelSequence")
+    for tag, idents, ok in (("distinct", ["kb", "ka", "kc"], True), ("first_and_last_equal", ["kx", "ky", "kx"], False), ("both_equal", ["same", "same"], False), ("neighbours_equal", ["ka", "kb", "kb"], False),
+                            ("one_empty", ["ka", ""], False), ("auto_style_names", ["kernel_01", "kernel_00"], True)):
+        trace = []
+        ks = [ghost_kernel(ip, i, trace, idt) for i, idt in enumerate(idents)]
+        kind, seq = try_call(ip, K, [list(ks)], {})
+        if not ok:
+            c.oblige(f"{tag}.rejected", kind == "raise" and seq.cls == "RuntimeError")
+            continue
+        c.oblige(f"{tag}.accepted", kind == "ok")
+        if kind != "ok":
+            continue
+        out = ip.call(method(ip, seq, "transition"), [z3.Const("key", U), [z3.Const(f"kstate{i}", U) for i in range(len(ks))], z3.Const("ms", U), sym_epoch_state(ip)], {})
+        infos = ip.getattr(out, "infos")
+        c.oblige(f"{tag}.one_info_per_kernel_under_its_identifier", isinstance(infos, dict) and sorted(infos) == sorted(idents) and all(ip.to_U(infos[idt]).eq(z3.Const(f"info{i}", U)) for i, idt in enumerate(idents)))
